@@ -193,11 +193,14 @@ def run_check(pid, tier, seed, replay=None):
     # witnesses of recorded findings (known -> KNOWN-FINDING line; fixed -> regression case)
     known_lines = []
     entries = findings.entries_for(pid)
+    with concurrent.futures.ThreadPoolExecutor(max_workers=NPROC) as ex:
+        wfuts = {ent["id"]: ex.submit(run_inline, ent["witness"].get("check", pid), {"replay": ent["witness"]["case"]})
+                 for ent in entries if ent.get("witness") and ent["witness"].get("check", pid) == pid}
     for ent in entries:
         w = ent.get("witness")
-        if not w:
+        if not w or ent["id"] not in wfuts:
             continue
-        viols = run_inline(w.get("check", pid), {"replay": w["case"]})
+        viols = wfuts[ent["id"]].result()
         hit = [v for v in viols if findings.predicate_holds(ent, v)]
         if ent["status"] == "known":
             if hit:
